@@ -463,7 +463,8 @@ class CallMixin:
         raise AnalysisError(f"len({v!r})")
 
     def bi_enumerate(self, args, kwargs, node, fr):
-        return StrOp("enumerate", [args[0]])
+        start = args[1] if len(args) > 1 else kwargs.get("start")
+        return StrOp("enumerate", [args[0]] + ([start] if start is not None else []))
 
     def bi_reversed(self, args, kwargs, node, fr):
         return StrOp("reversed", [args[0]])
@@ -753,7 +754,7 @@ class CallMixin:
             self.effects.append({
                 "kind": name, "target": sc.desc, "obj": sc.obj.tag, "attr": sc.attr,
                 "value": args[-1] if args else None, "args": list(args), "site": self.cur_site,
-                "rep": list(self.rep_stack), "phase": self.phase,
+                "rep": list(self.rep_stack), "phase": self.phase, "after_yields": len(self.yields),
             })
         if name == "append":
             sc.known.append(args[0])
